@@ -9,6 +9,8 @@ R05.3 index provenance    : MappingIndex / DynamicArrayIndex are constructed fre
       lifter that builds nothing fresh) to the transformer; inside a guard's arm the lifter is applied in key position only.
 R05.4 storage-access provenance: StorageWrite / SLoad / UnwrittenStorageValue are constructed fresh only by the VM's storage; the
       storage's store / load are called only by the SSTORE / SLOAD opcodes, which are disassembled only from bytes 0x55 / 0x54.
+R05.6 executed means EVM-reachable: the control-flow rules of C08 (validated jump targets, halting opcodes, failed instructions
+      end the path) are re-evaluated: a storage instruction executed in unreachable code is a phantom access.
 R05.5 key rewriting stays under a storage access: in passes that replace hashes by computed constants, the replacing function is
       referenced only from the key position of storage-access arms (or from itself / pure helpers).
 """
@@ -327,6 +329,13 @@ def check(fx, rep, tier):
         bad = [e for e in eps if e[1] != "key"]
         rep.oblige(not bad, "R05.5", f"hash-to-constant:{F.strip_generics(b['def'])}", F.loc(b["span"]), f"`{b['def']}` replaces a hash by a computed constant and is reachable through {[(F.strip_generics(e[0]).split('::')[-1], e[1]) for e in bad][:2]}: constants computed from look-alike hashes outside a storage key can become slots", sample={"rule": "R05.5", "fn": b["def"], "entries": [(F.strip_generics(e[0]).split('::')[-1], e[1]) for e in eps]})
     rep.extra["hash_to_constant_functions"] = n55
+    # ---------------------------------------------------------------- R05.6 (shared with C08)
+    # "a storage access the analysed code performs": an SLOAD / SSTORE the machine executes in code the EVM can never
+    # reach (a truncated jump target, a path that survives a failed or halting instruction) is a phantom access. The
+    # control-flow rules of C08 are therefore a necessary clause of this property and are re-evaluated here.
+    from .. import core
+
+    core.import_rules(rep, fx, "C08", "R05.6", floor=50, what="control-flow obligations (C08) behind 'executed storage access'")
     rep.exhaustive = True
     return rep.finish(
         "Proof by cases over constructors: rows come only from StorageSlot{KnownData}; StorageSlot is built fresh only under storage accesses and lifted indices with the matched key/slot; "
